@@ -16,13 +16,14 @@ def check(v, wd, vhbin, gs, label, timeout=3000):
     json.dump(gs, open(cp, "w"))
     out = os.path.join(d, "events.txt")
     vlib.vh(vhbin, ["parse-events", cp], outfile=out, timeout=timeout)
-    ev, er, tr = {}, {}, {}
+    ev, er, tr, part = {}, {}, {}, {}
     for line in open(out, errors="replace"):
         p = line.rstrip("\n").split("\t")
         if len(p) >= 4:
             ev[(p[0], int(p[1]), int(p[2]))] = [e for e in p[3].split(";") if e]
             er[(p[0], int(p[1]), int(p[2]))] = p[4] if len(p) > 4 else "?"
             tr[(p[0], int(p[1]), int(p[2]))] = json.loads(p[5]) if len(p) > 5 else []
+            part[(p[0], int(p[1]), int(p[2]))] = p[6] if len(p) > 6 else "?"
     ntr = 0
     for g in gs:
         for i, inp in enumerate(g["inputs"]):
@@ -52,6 +53,25 @@ def check(v, wd, vhbin, gs, label, timeout=3000):
         g = next(g_ for g_ in gs if g_["id"] == first[0][0])
         log("MODEL-DRIFT: error selection differs from ParserMachine in %d of %d failing parses, e.g. grammar %s lookahead %d input %r: real %s, machine %s" % (nbad, nerr, first[0][0], first[0][1], g["inputs"][first[0][2]]["s"], first[1], first[2]))
         v.notes["model_drift_error_selection"] = True
+    # partial AST (what a failing parse hands back next to the error): the machine's against the real one.  No property fixes
+    # its content (C06 only demands that it is not nil), so a disagreement is model drift.
+    npart = npbad = 0
+    pfirst = None
+    for f in vlib.parse_lines(res.lines, "PART"):
+        key = (f[0], int(f[1]), int(f[2]))
+        real, want = part.get(key, "?"), "|".join(f[3:])
+        if real == "?" or want == "?":
+            continue
+        npart += 1
+        if (want == "zero" and not real.startswith("Z:")) or (want != "zero" and real[2:] != want):
+            npbad += 1
+            pfirst = pfirst or (key, real, want)
+    if npart:
+        v.notes["partial_ast_" + label] = "%d failing parses: the partial AST returned next to the error equals ParserMachine's in %d" % (npart, npart - npbad)
+    if npbad:
+        g = next(g_ for g_ in gs if g_["id"] == pfirst[0][0])
+        log("MODEL-DRIFT: the partial AST of a failing parse differs from ParserMachine in %d of %d failing parses, e.g. grammar %s lookahead %d input %r: real %s, machine %s" % (npbad, npart, pfirst[0][0], pfirst[0][1], g["inputs"][pfirst[0][2]]["s"], pfirst[1][:300], pfirst[2][:300]))
+        v.notes["model_drift_partial_ast"] = True
     if res.ok:
         v.validated(ntr)
         v.notes["machine_" + label] = "%d hook traces and node-level traces (participle.Trace) accepted by ParserMachine (Refines, CtxDiscipline, CursorOrder, NoReentry, NoWriteBeforeCommit, Terminates hold)" % ntr
